@@ -18,6 +18,7 @@ import (
 	"sort"
 	"strings"
 	"sync"
+	"syscall"
 	"time"
 
 	"github.com/pdfcpu/pdfcpu/pkg/pdfcpu/primitives"
@@ -65,6 +66,7 @@ type Fetch struct {
 	Script  []serverScript          `json:"script"`  // n-th request arriving anywhere gets Script[n] (last repeats)
 	Allowed []string                `json:"allowed,omitempty"`
 	Proxy   bool                    `json:"proxy"`
+	Refuse  []int                   `json:"refuse,omitempty"` // indices of dial attempts that are answered with ECONNREFUSED
 }
 
 const proxyIP = "93.184.216.199" // public, so that reaching it is recognisable as "the proxy", not as a private address
@@ -86,6 +88,7 @@ type world struct {
 	requests []string
 	authSeen bool
 	served   int
+	refused  int
 	conns    []net.Conn
 }
 
@@ -146,7 +149,15 @@ func (w *world) dial(ctx context.Context, network, address string) (net.Conn, er
 			}
 		}
 	}
+	idx := len(w.dials)
 	w.dials = append(w.dials, rec)
+	for _, r := range w.f.Refuse {
+		if r == idx {
+			w.refused++
+			w.mu.Unlock()
+			return nil, &net.OpError{Op: "dial", Net: network, Err: os.NewSyscallError("connect", syscall.ECONNREFUSED)}, true
+		}
+	}
 	c1, c2 := net.Pipe()
 	w.conns = append(w.conns, c1, c2)
 	w.mu.Unlock()
@@ -324,7 +335,7 @@ func runFetch(f Fetch) (vs []core.Violation, w *world) {
 		b, _ := json.Marshal(f)
 		sig := fmt.Sprintf("%s|%s|%s", strings.SplitN(f.Client, "-", 2)[0], class, tail)
 		vs = append(vs, core.Violation{Property: "C30", Class: class, Signature: sig, Replay: b,
-			Detail: fmt.Sprintf("client=%s url=%q proxy=%v allowed=%v\ndns=%v\nlookups=%v\ndials=%v\nrequests=%v\n%s", f.Client, f.URL, f.Proxy, f.Allowed, f.DNS, w.lookups, w.dials, w.requests, detail)})
+			Detail: fmt.Sprintf("client=%s url=%q proxy=%v allowed=%v refused-dials=%v\ndns=%v\nlookups=%v\ndials=%v\nrequests=%v\n%s", f.Client, f.URL, f.Proxy, f.Allowed, f.Refuse, f.DNS, w.lookups, w.dials, w.requests, detail)})
 	}
 	if panicVal != nil {
 		mk("panic", "", fmt.Sprintf("panic: %v", panicVal))
@@ -489,6 +500,21 @@ func genFetch(rng *rand.Rand) Fetch {
 		last = "garbage"
 	}
 	f.Script = append(f.Script, serverScript{Kind: last})
+	// connection refused: the first r dial attempts (all addresses of the first answer, typically),
+	// or a scattered subset
+	switch rng.IntN(8) {
+	case 0:
+		r := 1 + rng.IntN(4)
+		for i := 0; i < r; i++ {
+			f.Refuse = append(f.Refuse, i)
+		}
+	case 1:
+		for i := 0; i < 12; i++ {
+			if rng.IntN(3) == 0 {
+				f.Refuse = append(f.Refuse, i)
+			}
+		}
+	}
 	return f
 }
 
@@ -548,6 +574,9 @@ func (c30) RunUnit(raw core.Unit, tier string, seed int64) core.UnitResult {
 				res.FaultFired["dns-rebinding-answer"]++
 				break
 			}
+		}
+		if w.refused > 0 {
+			res.FaultFired["dial-refused"] += w.refused
 		}
 		for _, s := range f.Script {
 			if s.Kind != "ok" && s.Kind != "redirect" {
@@ -616,6 +645,13 @@ func (c30) Minimise(v core.Violation, budget int) json.RawMessage {
 	if f.Proxy {
 		c := f
 		c.Proxy = false
+		if still(c) {
+			f = c
+		}
+	}
+	for i := len(f.Refuse) - 1; i >= 0; i-- {
+		c := f
+		c.Refuse = append(append([]int{}, f.Refuse[:i]...), f.Refuse[i+1:]...)
 		if still(c) {
 			f = c
 		}
